@@ -208,7 +208,9 @@ static void stack_case(char* line) {
     rc = uv_thread_create_ex(&t, &o, stack_entry, &ran);
     if (rc == 0) uv_thread_join(&t);
     /* <size applied (0 = no attribute)> <rc> <entry runs> <size seen by pthread_getattr_np in the thread> */
-    printf("%zu %d %d ", captured_set ? captured_stack : (size_t) 0, rc, ran);
+    /* "einval" = refused before anything was set up (no attribute, no thread) */
+    if (!captured_set && rc == UV_EINVAL && !ran) printf("einval %d %d ", rc, ran);
+    else printf("%zu %d %d ", captured_set ? captured_stack : (size_t) 0, rc, ran);
     if (inthread_ok) printf("%zu\n", inthread_size); else printf("-\n");
   }
 }
